@@ -196,7 +196,7 @@ func (k *ck) evaluate(cs *Case) map[string]validate.Result {
 	}
 	var astDoc *ast.Document
 	var perr error
-	if c.Guard("panic:parse", cs.Text, func() { astDoc, perr = harness.Parse(cs.Text) }) {
+	if c.Guard("panic", guardDetail("parse", cs.Text), func() { astDoc, perr = harness.Parse(cs.Text) }) {
 		return nil
 	}
 	if perr != nil {
@@ -208,7 +208,7 @@ func (k *ck) evaluate(cs *Case) map[string]validate.Result {
 
 	for _, rule := range validate.Rules {
 		var vr graphql.ValidationResult
-		if c.Guard("panic:"+rule, cs.Text, func() {
+		if c.Guard("panic", guardDetail(rule, cs.Text), func() {
 			vr = graphql.ValidateDocument(&cs.Env.Schema, astDoc, []graphql.ValidationRuleFn{RuleFns[rule]})
 		}) {
 			continue
@@ -260,7 +260,7 @@ func (k *ck) evaluate(cs *Case) map[string]validate.Result {
 
 	// all rules together
 	var all graphql.ValidationResult
-	if !c.Guard("panic:all-rules", cs.Text, func() { all = graphql.ValidateDocument(&cs.Env.Schema, astDoc, nil) }) {
+	if !c.Guard("panic", guardDetail("all-rules", cs.Text), func() { all = graphql.ValidateDocument(&cs.Env.Schema, astDoc, nil) }) {
 		c.Eval(1)
 		switch {
 		case valid && !all.IsValid, invalid && all.IsValid:
@@ -295,7 +295,7 @@ func (k *ck) evaluate(cs *Case) map[string]validate.Result {
 		}
 	}
 	var run *harness.Run
-	if !c.Guard("panic:Do", cs.Text, func() { run = harness.Do(cs.Env, cs.Text, opName, nil, nil, nil) }) {
+	if !c.Guard("panic", guardDetail("Do", cs.Text), func() { run = harness.Do(cs.Env, cs.Text, opName, nil, nil, nil) }) {
 		c.Eval(1)
 		r := run.Result
 		noData := r == nil || r.Data == nil
@@ -383,16 +383,23 @@ func resultErrors(r *graphql.Result) []string {
 
 func run(c *core.Child) {
 	k := &ck{c: c, reported: map[string]int{}}
-	debug.SetGCPercent(400) // many short-lived allocations per document, small live heap
+	debug.SetGCPercent(400)                              // many short-lived allocations per document, small live heap
 	if p := os.Getenv("VERIF_C02_CPUPROFILE"); p != "" { // development aid
 		if f, err := os.Create(fmt.Sprintf("%s.%d", p, c.Batch)); err == nil {
 			pprof.StartCPUProfile(f)
 			defer pprof.StopCPUProfile()
 		}
 	}
-	k.witnesses()
-	k.typed()
-	k.family()
+	only := os.Getenv("VERIF_C02_ONLY") // development aid: "witness" | "typed" | "family"
+	if only == "" || only == "witness" {
+		k.witnesses()
+	}
+	if only == "" || only == "typed" {
+		k.typed()
+	}
+	if only == "" || only == "family" {
+		k.family()
+	}
 }
 
 // typed: workloads (a) valid typed documents, (b) one mutation, (c) two mutations.
@@ -629,3 +636,9 @@ func sortedKeys(m map[string]bool) []string {
 }
 
 var _ = model.Named
+
+// guardDetail labels the detail of an escaped panic with the call that was
+// running (the signature is panic:<first library frame>).
+func guardDetail(call string, text interface{}) map[string]interface{} {
+	return map[string]interface{}{"call": call, "text": text}
+}
